@@ -1728,10 +1728,8 @@ static inline struct upipe *                                                \
                                 struct uprobe *uprobe  ARGS_DECL)           \
 {                                                                           \
     struct upipe *input = upipe_##GROUP##_alloc(upipe_mgr, uprobe  ARGS);   \
-    if (unlikely(input == NULL)) {                                          \
-        uprobe_release(uprobe);                                             \
+    if (unlikely(input == NULL))                                            \
         return NULL;                                                        \
-    }                                                                       \
     if (unlikely(!ubase_check(upipe_set_output(input, upipe)))) {           \
         upipe_release(input);                                               \
         return NULL;                                                        \
